@@ -28,7 +28,23 @@ pub fn models() -> Vec<Model> {
     out.push(pruned_undefined(Exp::BinOp(BinOp::Mul, bx(k(0.0)), bx(xdiv0()))));
     out.push(pruned_undefined(Exp::Min(vec![v("x"), Exp::BinOp(BinOp::Div, bx(k(1.0)), bx(k(0.0)))])));
     out.push(pruned_undefined(Exp::BinOp(BinOp::Add, bx(Exp::BinOp(BinOp::Mul, bx(xdiv0()), bx(k(0.0)))), bx(v("x")))));
+    // C01 (fixed ba14904): a logic value that has no value, compared with a literal that decides the comparison
+    out.push(verdict_undefined(Exp::And(vec![v("b"), xdiv0()]), Comparison::LessOrEqual, k(1.0)));
+    out.push(verdict_undefined(Exp::And(vec![v("b"), Exp::Max(vec![])]), Comparison::LessOrEqual, k(1.0)));
+    out.push(verdict_undefined(k(5.0), Comparison::GreaterOrEqual, Exp::Or(vec![v("b"), xdiv0()])));
+    out.push(verdict_undefined(Exp::And(vec![v("b"), xdiv0()]), Comparison::GreaterOrEqual, k(2.0)));
     out
+}
+
+/// C01 (fixed ba14904): `min x s.t. c: <logic value> cmp <literal>; x >= 0` where the literal alone decides the
+/// comparison (Tautology / Contradiction) and the logic value has no value at any assignment —
+/// `try_normalize_logic_constraint` used to drop (or replace by `0 = 1`) the constraint without lowering the logic
+/// value, so its error was never reported. Model and implementation must both reject these.
+fn verdict_undefined(lhs: Exp, cmp: Comparison, rhs: Exp) -> Model {
+    build(OptimizationType::Min, v("x"),
+        vec![Constraint::new(lhs, cmp, rhs, "c".into()),
+             Constraint::new(v("x"), Comparison::GreaterOrEqual, k(0.0), "l".into())],
+        &[d("x", VariableType::Real(f64::NEG_INFINITY, f64::INFINITY)), d("b", VariableType::Boolean)])
 }
 
 fn models_base() -> Vec<Model> {
@@ -86,12 +102,13 @@ fn models_base() -> Vec<Model> {
 
 #[cfg(test)]
 mod tests {
-    /// the four inputs of finding C01-prune-undefined-operand are rejected by the implementation (46b0121)
+    /// the four inputs of finding C01-prune-undefined-operand (46b0121) and the four of
+    /// C01-logic-verdict-undefined-operand (ba14904) are rejected by the implementation
     #[test]
     fn pruned_undefined_operands_are_rejected() {
         let all = super::models();
         let n = all.len();
-        for m in &all[n - 4..] {
+        for m in &all[n - 8..] {
             assert!(rooc::Linearizer::linearize(m.clone()).is_err(), "compiled: {}", m);
         }
     }
